@@ -31,10 +31,27 @@ func historyOracle(cfg *config) ([]failure, []string, map[string]interface{}) {
 	log := filepath.Join(cfg.tmp, "history.jsonl")
 	os.Remove(log)
 	seed := plan.Derive(cfg.seed, 606, 1)
-	cmd := exec.Command(v.Bin(false), "worker", "-wl", "reg", "-mode", "c06", "-seed", fmt.Sprint(seed), "-from", "0", "-to", fmt.Sprint(runs), "-tier", cfg.tier, "-histlog", log)
-	cmd.Env = append(os.Environ(), "GOMAXPROCS=1")
-	if b, err := cmd.CombinedOutput(); err != nil {
-		return nil, []string{fmt.Sprintf("history oracle: logging worker failed: %v: %s", err, trim(string(b), 1000))}, st
+	// the logging worker leaves (exit code 3, RESTART <run>) after a run in which
+	// a call had to be abandoned; logging then continues in a fresh process
+	for from := 0; from < runs; {
+		cmd := exec.Command(v.Bin(false), "worker", "-wl", "reg", "-mode", "c06", "-seed", fmt.Sprint(seed), "-from", fmt.Sprint(from), "-to", fmt.Sprint(runs), "-tier", cfg.tier, "-histlog", log)
+		cmd.Env = append(os.Environ(), "GOMAXPROCS=1")
+		b, err := cmd.CombinedOutput()
+		if err == nil {
+			break
+		}
+		next := -1
+		if ee, ok := err.(*exec.ExitError); ok && ee.ExitCode() == 3 {
+			for _, line := range strings.Split(string(b), "\n") {
+				if strings.HasPrefix(line, "RESTART ") {
+					fmt.Sscanf(line[8:], "%d", &next)
+				}
+			}
+		}
+		if next < from {
+			return nil, []string{fmt.Sprintf("history oracle: logging worker failed: %v: %s", err, trim(string(b), 1000))}, st
+		}
+		from = next + 1
 	}
 	total := 0
 	job := &Job{Name: "c06-cross-process-history", Variant: v, WL: "reg", Mode: "c06", Seed: seed}
